@@ -518,11 +518,11 @@ Helper lemmas: `Lemmas/AppOrder.lean` (`walk`, `nextIdx`, `poll_walk`).  The TRU
 `UseToken` or `AwaitDataResponse`, and nobody calls `set_offline`. -/
 def VisitRun : World → List ApiCall → Prop
   | _, [] => True
-  | w, a :: rest => Holding w.s ∧ a ≠ .setOffline ∧ ∀ w1 l, w.stepLog a = some (w1, l) → VisitRun w1 rest
+  | w, a :: rest => AppHolding w.s ∧ a ≠ .setOffline ∧ ∀ w1 l, w.stepLog a = some (w1, l) → VisitRun w1 rest
 
 /-- `ask_order`, one API call: from a state holding the token, the callbacks of the call follow the
 turn from `next_application` before to `next_application` after. -/
-theorem ask_order_step (w w' : World) (a : ApiCall) (l : List AppCall) (hh : Holding w.s) (ha : a ≠ .setOffline)
+theorem ask_order_step (w w' : World) (a : ApiCall) (l : List AppCall) (hh : AppHolding w.s) (ha : a ≠ .setOffline)
     (hs : w.stepLog a = some (w', l)) :
     walk w.apps.length w.s.nextApp l = some w'.s.nextApp ∧ w'.apps.length = w.apps.length := by
   cases a with
@@ -614,8 +614,8 @@ station holds the token its callbacks follow the turn, and otherwise (the call n
 theorem ask_order_trace (p : Params) (apps : Apps) (h1 : p.address < p.hsa) (h2 : p.hsa ≤ 126)
     (hs : ScriptsOk apps) (pre : List ApiCall) (a : ApiCall) :
     ∃ w w' l, World.run { s := Station.new p, apps := apps, rx := [] } pre = some w ∧ w.stepLog a = some (w', l) ∧
-      (Holding w.s → a ≠ .setOffline → walk w.apps.length w.s.nextApp l = some w'.s.nextApp) ∧
-      (¬ Holding w.s → l = []) := by
+      (AppHolding w.s → a ≠ .setOffline → walk w.apps.length w.s.nextApp l = some w'.s.nextApp) ∧
+      (¬ AppHolding w.s → l = []) := by
   obtain ⟨w, w', l, hw, -, hl⟩ := reach_step p apps h1 h2 hs pre a
   refine ⟨w, w', l, hw, hl, fun hh ha => (ask_order_step w w' a l hh ha hl).1, ?_⟩
   intro hn
@@ -646,7 +646,7 @@ def holdingB (s : Station) : Bool :=
   | .useToken .. | .awaitData .. => true
   | _ => false
 
-theorem holding_of_b {s : Station} (h : holdingB s = true) : Holding s := by
+theorem holding_of_b {s : Station} (h : holdingB s = true) : AppHolding s := by
   unfold holdingB at h
   cases hst : s.st <;> rw [hst] at h <;> simp at h
   · exact .inl ⟨_, _, hst⟩
@@ -725,7 +725,7 @@ after the telegram sent by application 1.  The true rule is per VISIT: `first_ap
 sent telegrams, and the hold ends when the turn comes back to it (`cycle_ends_fair` below). -/
 theorem visit_end_not_since_last_send :
     ∃ w' pre post hd pdu, orderWorld.runLog orderCalls = some (w', pre ++ .transmit 1 false (.send hd pdu) :: post) ∧
-      ¬ Holding w'.s ∧ (∀ hp ans, AppCall.transmit 0 hp ans ∉ post) ∧ (100000 : Int) < orderStation.endTokenHoldTime := by
+      ¬ AppHolding w'.s ∧ (∀ hp ans, AppCall.transmit 0 hp ans ∉ post) ∧ (100000 : Int) < orderStation.endTokenHoldTime := by
   have he := order_eval
   cases hr : orderWorld.runLog orderCalls with
   | none => rw [hr] at he; simp at he
